@@ -2,10 +2,11 @@
    the images produced by the compiled functions (Gen/GenResetImages.v, written from the output of
    `k15_reinit resetimg`).  Finite and complete: every (function, lane count) pair a compiled variant
    passes to reset_ooo_mgrs(). *)
-From Coq Require Import NArith List String Bool.
+From Coq Require Import Arith NArith List String Bool Lia.
 From IMB Require Import Gen.GenLayout Gen.GenReset Gen.GenResetImages Mgr.Reset.
 Import ListNotations.
 Local Open Scope N_scope.
+Local Notation length := List.length.
 
 (* 256 stands for "byte not written" on both sides *)
 Definition model_image (fn : string) (lanes size : N) : list N :=
@@ -27,8 +28,91 @@ Proof.
   cbn in H. apply andb_true_iff in H. destruct H as [H1 H2]. apply N.eqb_eq in H1. subst. f_equal. auto.
 Qed.
 
+(* ---- a fast evaluator of the same image: paint each write onto a list (no per-byte arithmetic) ---- *)
+Definition tab (g : nat -> N) (m : nat) : list N := map g (seq 0 m).
+
+Definition paint_prim (l : list N) (p : prim) : list N :=
+  match p with PFill off len b =>
+    let o := N.to_nat off in let n := N.to_nat len in
+    firstn o l ++ repeat b (Nat.min n (length l - o)) ++ skipn (o + n) l
+  end.
+
+Definition fast_image (fn : string) (lanes size : N) : list N :=
+  fold_left paint_prim (reset_prims fn lanes) (tab (fun _ => 256) (N.to_nat size)).
+
+Lemma tab_length g m : length (tab g m) = m.
+Proof. unfold tab. rewrite map_length, seq_length. reflexivity. Qed.
+
+Lemma nth_tab g m i d : (i < m)%nat -> nth i (tab g m) d = g i.
+Proof.
+  intros H. unfold tab. rewrite (nth_indep _ d (g 0%nat)) by (rewrite map_length, seq_length; exact H).
+  rewrite map_nth, seq_nth by exact H. reflexivity.
+Qed.
+
+Lemma nth_firstn_lt {A} (l : list A) : forall o i d, (i < o)%nat -> nth i (firstn o l) d = nth i l d.
+Proof.
+  induction l as [|x l IH]; intros o i d H.
+  - rewrite firstn_nil. reflexivity.
+  - destruct o as [|o]; [lia|]. destruct i as [|i]; cbn; [reflexivity|]. apply IH. lia.
+Qed.
+
+Lemma nth_skipn_add {A} (l : list A) : forall k i d, nth i (skipn k l) d = nth (k + i) l d.
+Proof.
+  induction l as [|x l IH]; intros k i d.
+  - rewrite skipn_nil. destruct i, k; reflexivity.
+  - destruct k as [|k]; cbn; [reflexivity|]. apply IH.
+Qed.
+
+Lemma nth_repeat_lt (b : N) k i d : (i < k)%nat -> nth i (repeat b k) d = b.
+Proof.
+  revert i. induction k as [|k IH]; intros i H; [lia|].
+  destruct i as [|i]; cbn; [reflexivity|]. apply IH. lia.
+Qed.
+
+Lemma paint_prim_tab p f m :
+  paint_prim (tab (fun i => f (N.of_nat i)) m) p = tab (fun i => apply_prim p f (N.of_nat i)) m.
+Proof.
+  destruct p as [off len b]. unfold paint_prim. rewrite tab_length.
+  set (o := N.to_nat off). set (n := N.to_nat len). set (L := tab (fun i => f (N.of_nat i)) m).
+  assert (HL : length L = m) by apply tab_length.
+  apply nth_ext with (d := 0) (d' := 0).
+  - rewrite !app_length, firstn_length, repeat_length, skipn_length, HL, tab_length. lia.
+  - intros i Hi. rewrite !app_length, firstn_length, repeat_length, skipn_length, HL in Hi.
+    assert (Him : (i < m)%nat) by lia.
+    rewrite (nth_tab _ m i 0 Him). cbn [apply_prim]. unfold in_range.
+    destruct (Nat.lt_ge_cases i (Nat.min o m)) as [H1|H1].
+    + rewrite app_nth1 by (rewrite firstn_length, HL; exact H1).
+      rewrite nth_firstn_lt by lia. unfold L. rewrite nth_tab by exact Him.
+      replace (off <=? N.of_nat i) with false; [reflexivity|]. symmetry. apply N.leb_gt. unfold o in H1. lia.
+    + rewrite app_nth2 by (rewrite firstn_length, HL; exact H1). rewrite firstn_length, HL.
+      destruct (Nat.lt_ge_cases (i - Nat.min o m) (Nat.min n (m - o))) as [H2|H2].
+      * rewrite app_nth1 by (rewrite repeat_length; exact H2). rewrite nth_repeat_lt by exact H2.
+        replace (off <=? N.of_nat i) with true by (symmetry; apply N.leb_le; unfold o in *; lia).
+        replace (N.of_nat i <? off + len) with true by (symmetry; apply N.ltb_lt; unfold o, n in *; lia).
+        reflexivity.
+      * rewrite app_nth2 by (rewrite repeat_length; exact H2). rewrite repeat_length, nth_skipn_add.
+        replace (o + n + (i - Nat.min o m - Nat.min n (m - o)))%nat with i by lia.
+        unfold L. rewrite nth_tab by exact Him.
+        destruct (off <=? N.of_nat i) eqn:E1; [|reflexivity].
+        replace (N.of_nat i <? off + len) with false; [reflexivity|]. symmetry. apply N.ltb_ge.
+        apply N.leb_le in E1. unfold o, n in *. lia.
+Qed.
+
+Lemma paint_all_tab ps : forall f m,
+  fold_left paint_prim ps (tab (fun i => f (N.of_nat i)) m) = tab (fun i => run_prims ps f (N.of_nat i)) m.
+Proof.
+  induction ps as [|p ps IH]; intros f m; cbn [fold_left]; [reflexivity|].
+  rewrite paint_prim_tab. rewrite (IH (apply_prim p f) m). reflexivity.
+Qed.
+
+Lemma fast_image_eq fn lanes size : fast_image fn lanes size = model_image fn lanes size.
+Proof.
+  unfold fast_image, model_image, reset_image, nseq. rewrite map_map.
+  apply (paint_all_tab (reset_prims fn lanes) (fun _ => 256) (N.to_nat size)).
+Qed.
+
 Definition entry_ok (e : string * N * N * list (N * N)) : bool :=
-  let '(fn, lanes, size, runs) := e in list_eqb (model_image fn lanes size) (expand_runs runs).
+  let '(fn, lanes, size, runs) := e in list_eqb (fast_image fn lanes size) (expand_runs runs).
 
 Definition find_image (fn : string) (lanes : N) : option (string * N * N * list (N * N)) :=
   find (fun e => let '(f, l, _, _) := e in String.eqb f fn && (l =? lanes)) compiled_reset_images.
@@ -52,5 +136,5 @@ Proof.
   apply andb_true_iff in Hkey. destruct Hkey as [K1 K2]. apply String.eqb_eq in K1. apply N.eqb_eq in K2. subst f l.
   exists size, runs. split; [exact Hmem|].
   pose proof entries_ok as Hall. rewrite forallb_forall in Hall. specialize (Hall _ Hmem). cbn in Hall.
-  apply list_eqb_eq. exact Hall.
+  rewrite <- fast_image_eq. apply list_eqb_eq. exact Hall.
 Qed.
